@@ -186,6 +186,35 @@ fn vp_native_peer_is_the_url_host() {
     println!("VP-NATIVE peer_is_the_url_host cases={}", cases);
 }
 
+/// C08 inside a CONNECT tunnel: the CONNECT line names the origin host and its effective port, and the request inside the
+/// tunnel is in origin-form with a Host field that is the origin's host, plus its port only when that is not the scheme default
+#[test]
+fn vp_native_host_inside_tunnel() {
+    let mut cases = 0u64;
+    for (url, authority, host, target) in [("https://localhost/x?y=1", "localhost:443", "localhost", "/x?y=1"), ("https://localhost:443/", "localhost:443", "localhost", "/"),
+                                           ("https://localhost:8443/a/b", "localhost:8443", "localhost:8443", "/a/b"), ("https://LOCALHOST:80/", "localhost:80", "localhost:80", "/"),
+                                           ("https://user:pw@localhost/p#frag", "localhost:443", "localhost", "/p")] {
+        for creds in [false, true] {
+            let log: Arc<Mutex<Vec<Hop>>> = Arc::new(Mutex::new(Vec::new()));
+            let proxy = serve_tunnelling_proxy(log.clone(), |_, _| resp(200, None, "inside"));
+            let purl = if creds { format!("http://pu:pw@127.0.0.1:{}", proxy) } else { format!("http://127.0.0.1:{}", proxy) };
+            let mut s = crate::Session::new();
+            s.proxy_settings(crate::ProxySettings::builder().https_proxy(Url::parse(&purl).unwrap()).build());
+            s.danger_accept_invalid_certs(true);
+            let r = s.get(url).send().unwrap_or_else(|e| panic!("{} through {}: {}", url, purl, e));
+            assert_eq!(r.text().unwrap(), "inside"); cases += 1;
+            let hops = log.lock().unwrap().clone();
+            assert_eq!(hops.len(), 1, "{}: {:?}", url, hops);
+            let ch = hops[0].connect_head.as_ref().unwrap_or_else(|| panic!("{}: an https URL behind a proxy is tunnelled", url));
+            assert!(ch.starts_with(&format!("CONNECT {} HTTP/1.1\r\n", authority)), "{}: CONNECT names host and effective port: {:?}", url, ch);
+            let inner = hops[0].req.as_ref().unwrap_or_else(|| panic!("{}: no request inside the tunnel", url));
+            assert_eq!(inner.target, target, "{}: origin-form inside the tunnel", url);
+            assert_eq!(header(inner, "host"), vec![host.as_bytes()], "{}: Host inside the tunnel is the origin's host, with its port only when it is not the default", url);
+        }
+    }
+    println!("VP-NATIVE host_inside_tunnel cases={}", cases);
+}
+
 /// C16: settings flow by value: session -> request snapshots, request overrides, clones and siblings, header set/append, defaults
 #[test]
 fn vp_native_settings_flow() {
@@ -479,7 +508,7 @@ fn vp_native_redirect_hops_with_bodies() {
     for status in [301u16, 302, 303, 307, 308] { for kind in ["empty", "text", "bytes", "file", "json", "json_streaming", "form", "multipart", "custom-chunked", "custom-length"] {
         log.lock().unwrap().clear();
         let url = format!("http://127.0.0.1:{}/{}/start", a, status);
-        let rb = s.post(&url).header("X-Caller", "keep-me");
+        let rb = s.post(&url).header("X-Caller", "keep-me").header("Authorization", "Bearer caller-token").header("Cookie", "sid=abc").header("Proxy-Authorization", "Basic Y2FsbGVy");
         let (res, want): (crate::Result<crate::Response>, Option<Vec<u8>>) = match kind {
             "empty" => (rb.send(), Some(vec![])),
             "text" => (rb.text("héllo text").send(), Some("héllo text".as_bytes().to_vec())),
@@ -502,7 +531,9 @@ fn vp_native_redirect_hops_with_bodies() {
             let hop_port = if i == 1 || i == 2 { b } else { a };
             assert_eq!(x.port, hop_port, "hop {} went to the wrong server ({})", i, ctx);
             assert_eq!(x.host.as_deref(), Some(&format!("127.0.0.1:{}", hop_port)[..]), "Host of hop {} ({})", i, ctx);
-            assert!(x.head.to_ascii_lowercase().contains("x-caller: keep-me"), "the caller's header is missing on hop {} ({})", i, ctx);
+            for field in ["x-caller: keep-me", "authorization: bearer caller-token", "cookie: sid=abc", "proxy-authorization: basic y2fsbgvy"] {
+                assert!(x.head.to_ascii_lowercase().contains(field), "the caller's header field {:?} is missing on hop {} ({})", field, i, ctx);
+            }
             assert!(!x.body.starts_with(b"<"), "framing of hop {} does not match the body written: {} ({})", i, String::from_utf8_lossy(&x.body), ctx);
             if status == 307 || status == 308 {
                 assert!(x.first_line.starts_with("POST "), "method changed on hop {}: {} ({})", i, x.first_line, ctx);
@@ -1084,7 +1115,6 @@ fn vp_native_tunnel_interior() {
         assert!(header(inner, "proxy-authorization").is_empty(), "{}: proxy credentials inside the tunnel", ctx);
         assert_eq!(header(inner, "authorization"), vec![&b"Bearer caller-token"[..]], "{}", ctx);
         assert_eq!(inner.body, b"topsecret-body", "{}", ctx);
-        assert_eq!(header(inner, "host"), vec![format!("{}:9443", origin_host).as_bytes()], "{}: Host inside the tunnel is the origin", ctx);
     } }
     // real verification (nothing waived; the localhost-only certificate added as a root): the session inside the tunnel is verified
     // against the origin's name.  Proxy `localhost` (its certificate fits), origin `127.0.0.1` (the certificate does not cover it):
